@@ -1,7 +1,14 @@
 (* JSON-level entry points of the TypeScript model, used by the generated correspondence cases of the C15 check
    (evaluated with vm_compute under coqc) -- no shared extraction files are needed. *)
 From Coq Require Import List NArith ZArith Bool String.
-From NB Require Import Base.Res Base.Json Base.PyStr Diff.DiffFormat Diff.Patch Diff.Codec Ts.TsSplit Ts.TsPatch.
+From NB Require Import Base.Res.
+From NB Require Import Base.Json.
+From NB Require Import Base.PyStr.
+From NB Require Import Diff.DiffFormat.
+From NB Require Import Diff.Patch.
+From NB Require Import Diff.Codec.
+From NB Require Import Ts.TsSplit.
+From NB Require Import Ts.TsPatch.
 Import ListNotations.
 
 Definition ts_err_name (e : err) : pystr :=
